@@ -123,7 +123,7 @@ func (w *world) runMiner(mask int) (fails []string, trace string) {
 	}
 	if !waitHead(1) {
 		m.Stop()
-		return []string{"harness: miner produced no block within 60 s"}, trace
+		return []string{"timeout: miner produced no block within 60 s"}, trace
 	}
 	rs := recipes()
 	ntx := 0
@@ -139,7 +139,7 @@ func (w *world) runMiner(mask int) (fails []string, trace string) {
 	}
 	if !waitHead(bc.CurrentBlock().NumberU64() + 4) {
 		m.Stop()
-		return []string{"harness: miner stopped producing blocks"}, trace
+		return []string{"timeout: miner stopped producing blocks within 60 s"}, trace
 	}
 	// Stop the pool first: the worker's event loop applies incoming transactions to its current work
 	// whenever the miner is not mining, concurrently with the goroutine that writes a sealed block
@@ -240,7 +240,7 @@ func (w *world) runMinerUncle(k int) (fails []string, trace string) {
 	for bc.CurrentBlock().NumberU64() < 12 {
 		if time.Now().After(deadline) {
 			m.Stop()
-			return []string{"harness: miner stopped producing blocks"}, trace
+			return []string{"timeout: miner stopped producing blocks within 60 s"}, trace
 		}
 		time.Sleep(time.Millisecond)
 	}
